@@ -659,8 +659,8 @@ func c11R4(p *Prog, r *Report, sites []*relaySite) {
 			}, "uplink")
 		}
 		check(fc, "relayNatConnTo", map[string]func(ast.Expr) bool{
-			"natConn":          isNat,
-			"natConnUnpacker":  str(func(v string) bool { return v == sn+".Unpacker" }),
+			"natConn":         isNat,
+			"natConnUnpacker": str(func(v string) bool { return v == sn+".Unpacker" }),
 			"serverConn": func(e ast.Expr) bool {
 				v := exprStr(fc.ResolveUp(e))
 				if c, ok := ast.Unparen(e).(*ast.CallExpr); ok {
@@ -852,5 +852,169 @@ func c11R6(p *Prog, r *Report) {
 		}
 	})
 	r.Count("destination_pointer_definitions", n)
-	r.Floor(rule, 2)
+	nBlocks := addrChangeBlocks(p, r, rule, true, true)
+	r.Count("address_change_blocks", nBlocks)
+	r.Floor(rule, 3)
+}
+
+// addrChangeBlocks decides the update blocks of the session relays' downlinks (shared by C11-R6
+// and C05-R8): freshRecord checks that every field of the address record is read through the
+// freshly loaded pointer; rederive checks that what was computed from the address is computed
+// again on every path through the block. Returns the number of blocks found.
+func addrChangeBlocks(p *Prog, r *Report, rule string, freshRecord, rederive bool) int {
+	pkg := p.Pkg("service")
+	// the update block of a session whose client address changed: `if fresh := X.Load(); fresh !=
+	// current { … }`. Inside it every field of the address record is read through the freshly
+	// loaded pointer (or a local that was just assigned from it), never through an older
+	// snapshot of the record — the destination, packet info and size limit all move together.
+	nBlocks := 0
+	p.AllFuncs(pkg, func(top *FuncCtx) {
+		for _, fc := range allCtxs(p, top) {
+			info := fc.Info()
+			for _, cv := range fc.G.V {
+				x, y, op, ok := condParts(cv)
+				if !ok || y == nil || op != token.NEQ {
+					continue
+				}
+				xo, yo := objOf(info, x), objOf(info, y)
+				if xo == nil || yo == nil {
+					continue
+				}
+				pt, isPtr := xo.Type().Underlying().(*types.Pointer)
+				if !isPtr || !types.Identical(xo.Type(), yo.Type()) {
+					continue
+				}
+				if _, isStruct := pt.Elem().Underlying().(*types.Struct); !isStruct {
+					continue
+				}
+				// which of the two is the fresh load
+				isLoad := func(o types.Object) bool {
+					rhs, _, _, okd := fc.SoleDefRHS(o)
+					if !okd {
+						return false
+					}
+					c, okc := ast.Unparen(rhs).(*ast.CallExpr)
+					return okc && isAtomicPointerOp(Callee(info, c), "Load")
+				}
+				var fresh types.Object
+				switch {
+				case isLoad(xo):
+					fresh = xo
+				case isLoad(yo):
+					fresh = yo
+				default:
+					continue
+				}
+				nBlocks++
+				var te []Edge
+				for _, e := range cv.Succs {
+					if e.Label == LTrue {
+						te = append(te, e)
+					}
+				}
+				bad := ""
+				for _, v := range fc.G.V {
+					if v.Node == nil || v.ID == cv.ID || !fc.G.EdgeDominates(te, v.ID) {
+						continue
+					}
+					// still inside the block: the block ends where both edges of the test meet again
+					if fc.G.Reach([]int{cv.ID}, nil, func(e Edge) bool { return e.From == cv.ID && e.Label == LTrue })[v.ID] {
+						continue
+					}
+					inspectNoLit(v.Node, func(nd ast.Node) bool {
+						sel, oks := nd.(*ast.SelectorExpr)
+						if !oks {
+							return true
+						}
+						bt := info.TypeOf(sel.X)
+						if bt == nil {
+							return true
+						}
+						if bp, okp := bt.Underlying().(*types.Pointer); okp {
+							bt = bp.Elem()
+						}
+						if !types.Identical(bt, pt.Elem()) {
+							return true
+						}
+						if sl, okl := info.Selections[sel]; !okl || sl.Kind() != types.FieldVal {
+							return true
+						}
+						root := objOf(info, sel.X)
+						good := root == fresh
+						if !good && root != nil {
+							// a local that, here, holds a copy of the fresh pointer
+							good = copyOfVar(fc, v.ID, root, fresh, 0)
+						}
+						if !good {
+							bad = exprStr(sel)
+						}
+						return true
+					})
+				}
+				// what was derived from the address before (size limit …) is derived again, on every
+				// path through the block
+				inBlock := func(id int) bool { return id != cv.ID && fc.G.EdgeDominates(te, id) }
+				addrVars := map[types.Object]bool{}
+				for _, v := range fc.G.V {
+					as, isAs := v.Node.(*ast.AssignStmt)
+					if !isAs || !inBlock(v.ID) || len(as.Lhs) != len(as.Rhs) {
+						continue
+					}
+					for i, l := range as.Lhs {
+						if sel, oks := ast.Unparen(as.Rhs[i]).(*ast.SelectorExpr); oks && objOf(info, sel.X) == fresh {
+							if lo := objOf(info, l); lo != nil {
+								addrVars[lo] = true
+							}
+						}
+					}
+				}
+				stale := ""
+				for _, v := range fc.G.V {
+					as, isAs := v.Node.(*ast.AssignStmt)
+					if !isAs || inBlock(v.ID) || len(as.Lhs) != len(as.Rhs) {
+						continue
+					}
+					for i, l := range as.Lhs {
+						d := objOf(info, l)
+						if d == nil || addrVars[d] {
+							continue
+						}
+						uses := false
+						for av := range addrVars {
+							if usesObj(info, as.Rhs[i], av, false) {
+								uses = true
+							}
+						}
+						if !uses {
+							continue
+						}
+						// d is derived from the address: every path through the block redefines it
+						isDef := map[int]bool{}
+						for _, dv := range fc.Defs(d) {
+							if inBlock(dv) {
+								isDef[dv] = true
+							}
+						}
+						var starts []int
+						for _, e := range te {
+							starts = append(starts, e.To)
+						}
+						reach := fc.G.Reach(starts, func(u *Vertex) bool { return isDef[u.ID] }, nil)
+						for id := range fc.G.V {
+							if reach[id] && !inBlock(id) {
+								stale = d.Name()
+							}
+						}
+					}
+				}
+				if rederive {
+					r.Check(stale == "", rule, fmt.Sprintf("%s:address-change-rederives@%s", fc.Name, exprStr(cv.Node)), p.posStr(cv.Node.Pos()), "everything computed from the client address is computed again on every path through the update", "when the client's address changes, "+stale+" (computed from the address when the session started) is not recomputed on every path: replies to the new address are sized or addressed with the old address's value")
+				}
+				if freshRecord {
+					r.Check(bad == "", rule, fmt.Sprintf("%s:address-change-uses-fresh-record@%s", fc.Name, exprStr(cv.Node)), p.posStr(cv.Node.Pos()), "every field of the client address record read while switching to the new address comes from the freshly loaded record", "while switching a session to the client's new address, "+bad+" is read from an older snapshot of the address record instead of the freshly loaded one: replies keep going to the previous address (or are sized / tagged for it)")
+				}
+			}
+		}
+	})
+	return nBlocks
 }
